@@ -15,8 +15,10 @@
 //! `cs n=<nodes> cap=<c> u=<0|1> ops=<op.op...>` - `CachingSession` + `Session::prepare` against the mock cluster.
 //!   ops: `x<t>c<k>` execute_unpaged(text t, config variant k); `b<items>` batch (items `q<t>` unprepared / `p<t>`
 //!   prepared beforehand, each with one value); `M<node>t<t>` node answers PREPARE of text t with ANOTHER id from now on;
-//!   `F<t>` every node refuses PREPARE of text t from now on; `G<t>` / `N<node>t<t>` switch those off again.
-//!   Output per op: `<op>~prep=<per text: number of PREPARE frames>~<frame>~<ok|err kind>`.
+//!   `F<node>t<t>` that node refuses PREPARE of text t from now on (0x2200 on even nodes, 0x2000 on odd ones);
+//!   `G<node>t<t>` / `N<node>t<t>` switch those off again. `sh=<0|2|3>`: shards per node (the per-shard second attempt).
+//!   `x` runs `execute_single_page` with the statement's own page size, so the EXECUTE shows what the handle carries.
+//!   Output per op: `<op>~pa=<per text: per node the answer it gives and the number of PREPARE frames it got>~<frame>~<res>`.
 //!   ORACLE: see `run_cs`.
 use crate::e2e::common::*;
 use crate::mockcluster::*;
@@ -263,24 +265,40 @@ const CS_TEXTS: [&str; 5] = [
 struct CsState {
     /// (node, text) -> answers with another id
     mismatch: Vec<[bool; 5]>,
-    refuse: [bool; 5],
+    /// (node, text) -> refuses the PREPARE (error code 0x2200 on even nodes, 0x2000 on odd ones)
+    refuse: Vec<[bool; 5]>,
 }
 
 fn cs_id(text: &str, variant: u8) -> Vec<u8> {
     format!("{}#{}", text, variant).into_bytes()
 }
 
+/// what the PREPAREs of one operation looked like at the nodes: per text, per node the answer given (`o<variant>` /
+/// `e<code>`) and the number of PREPARE frames that node received
+fn show_pa(frames: &[Req], n: usize, ctx: &mut Ctx) -> (String, BTreeMap<usize, Vec<usize>>) {
+    let mut per: BTreeMap<usize, Vec<usize>> = BTreeMap::new();
+    for f in frames {
+        if let Parsed::Prepare { text } = &f.parsed {
+            match CS_TEXTS.iter().position(|x| x == text) {
+                Some(t) => per.entry(t).or_insert_with(|| vec![0; n])[f.node] += 1,
+                None => ctx.fail(format!("a PREPARE carries a text the caller never passed: x{}", hex(text.as_bytes()))),
+            }
+        }
+    }
+    (String::new(), per)
+}
+
 fn run_cs(w: &[&str], ctx: &mut Ctx) -> String {
     let Some(p) = Params::parse(&w[1..]) else { return "bad-case".into() };
-    let (Some(n), Some(cap), Some(u)) = (p.num("n"), p.num("cap"), p.num_or("u", 0)) else { return "bad-case".into() };
+    let (Some(n), Some(cap), Some(u), Some(sh)) = (p.num("n"), p.num("cap"), p.num_or("u", 0), p.num_or("sh", 0)) else { return "bad-case".into() };
     let Some(ops_s) = p.str("ops") else { return "bad-case".into() };
     let ops: Vec<&str> = ops_s.split('.').filter(|o| !o.is_empty()).collect();
-    if !(1..=4).contains(&n) || !(1..=8).contains(&cap) || u > 1 || ops.len() > 60 {
+    if !(1..=4).contains(&n) || !(1..=8).contains(&cap) || u > 1 || ![0, 2, 3].contains(&sh) || ops.len() > 60 {
         return "bad-case".into();
     }
     let n = n as usize;
-    let shape = Shape { nodes: n, dcs: 1, racks: 1, shards: 0, msb: 12, vnodes: 2, strat: Strat::Simple(n), seed: 1 };
-    let state = Arc::new(Mutex::new(CsState { mismatch: vec![[false; 5]; n], refuse: [false; 5] }));
+    let shape = Shape { nodes: n, dcs: 1, racks: 1, shards: sh as u16, msb: 12, vnodes: 2, strat: Strat::Simple(n), seed: 1 };
+    let state = Arc::new(Mutex::new(CsState { mismatch: vec![[false; 5]; n], refuse: vec![[false; 5]; n] }));
     let st_h = Arc::clone(&state);
     let handler: ClusterHandler = Box::new(move |r: &Req| {
         let st = st_h.lock().unwrap();
@@ -289,8 +307,8 @@ fn run_cs(w: &[&str], ctx: &mut Ctx) -> String {
                 let Some(t) = CS_TEXTS.iter().position(|x| x == text) else {
                     return vec![act_error(0x2000, "unknown statement text", &[])];
                 };
-                if st.refuse[t] {
-                    return vec![act_error(0x2200, "scripted", &[])];
+                if st.refuse[r.node][t] {
+                    return vec![act_error(if r.node % 2 == 0 { 0x2200 } else { 0x2000 }, "scripted", &[])];
                 }
                 let id = cs_id(text, st.mismatch[r.node][t] as u8);
                 let mut body = std_prepared(text);
@@ -316,6 +334,7 @@ fn run_cs(w: &[&str], ctx: &mut Ctx) -> String {
     let rt = runtime(1);
     rt.block_on(async {
         use scylla::client::caching_session::CachingSessionBuilder;
+        use scylla::response::PagingState;
         let cluster = MockCluster::start(shape.topology(), handler).await;
         let session = match connect(&cluster, |b| b).await {
             Ok(s) => s,
@@ -332,63 +351,79 @@ fn run_cs(w: &[&str], ctx: &mut Ctx) -> String {
         let cs = CachingSessionBuilder::new(session).max_capacity(cap as usize).use_cached_result_metadata(u == 1).build();
         let mut out: Vec<String> = Vec::new();
         let user_frames = |c: &MockCluster| -> Vec<Req> { c.user_frames().into_iter().filter(|f| [mk::OP_PREPARE, mk::OP_EXECUTE, mk::OP_BATCH].contains(&f.opcode)).collect() };
+        // the answer a node gives to PREPARE of text t right now
+        let answer = |node: usize, t: usize| -> String {
+            let st = state.lock().unwrap();
+            if st.refuse[node][t] { format!("e{}", if node % 2 == 0 { 0x2200 } else { 0x2000 }) } else { format!("o{}", st.mismatch[node][t] as u8) }
+        };
+        let pa_str = |per: &BTreeMap<usize, Vec<usize>>| -> String {
+            if per.is_empty() {
+                return "-".to_owned();
+            }
+            per.iter()
+                .map(|(t, counts)| format!("t{}@{}", t, counts.iter().enumerate().map(|(node, c)| format!("{}*{}", answer(node, *t), c)).collect::<Vec<_>>().join(",")))
+                .collect::<Vec<_>>()
+                .join("+")
+        };
         for (idx, op) in ops.iter().enumerate() {
             let before = user_frames(&cluster).len();
             let b = op.as_bytes();
             let digit = |i: usize| -> Option<usize> { b.get(i).filter(|c| c.is_ascii_digit()).map(|c| (*c - b'0') as usize) };
             match b[0] {
-                b'M' | b'N' => {
+                b'M' | b'N' | b'F' | b'G' => {
                     let (Some(node), Some(b't'), Some(t)) = (digit(1), b.get(2).copied(), digit(3)) else { return "bad-case".to_owned() };
                     if node >= n || t >= 5 {
                         return "bad-case".to_owned();
                     }
-                    state.lock().unwrap().mismatch[node][t] = b[0] == b'M';
-                    out.push((*op).to_owned());
-                }
-                b'F' | b'G' => {
-                    let Some(t) = digit(1).filter(|t| *t < 5) else { return "bad-case".to_owned() };
-                    state.lock().unwrap().refuse[t] = b[0] == b'F';
+                    let mut st = state.lock().unwrap();
+                    match b[0] {
+                        b'M' | b'N' => st.mismatch[node][t] = b[0] == b'M',
+                        _ => st.refuse[node][t] = b[0] == b'F',
+                    }
                     out.push((*op).to_owned());
                 }
                 b'x' => {
                     let (Some(t), Some(b'c'), Some(k)) = (digit(1).filter(|t| *t < 5), b.get(2).copied(), digit(3).filter(|k| *k < 3)) else { return "bad-case".to_owned() };
                     let mut q = Statement::new(CS_TEXTS[t]);
-                    let (cl, idem) = [(Consistency::One, false), (Consistency::Quorum, true), (Consistency::LocalQuorum, false)][k];
+                    let (cl, idem, page) = [(Consistency::One, false, 7), (Consistency::Quorum, true, 5000), (Consistency::LocalQuorum, false, 123)][k];
                     q.set_consistency(cl);
                     q.set_is_idempotent(idem);
+                    q.set_page_size(page);
                     let pk = vec![idx as u8, t as u8];
-                    let res = cs.execute_unpaged(q, (pk.clone(),)).await;
+                    let res = cs.execute_single_page(q, (pk.clone(),), PagingState::start()).await;
                     let frames: Vec<Req> = user_frames(&cluster).into_iter().skip(before).collect();
-                    let mut prep: BTreeMap<usize, usize> = BTreeMap::new();
+                    let (_, per) = show_pa(&frames, n, ctx);
                     let mut exec = Vec::new();
                     for f in &frames {
                         match &f.parsed {
-                            Parsed::Prepare { text } => {
-                                match CS_TEXTS.iter().position(|x| x == text) {
-                                    Some(tt) => *prep.entry(tt).or_default() += 1,
-                                    None => ctx.fail(format!("a PREPARE carries a text the caller never passed: x{}", hex(text.as_bytes()))),
-                                }
-                                if text != CS_TEXTS[t] {
-                                    ctx.fail(format!("execute_unpaged of text {} caused a PREPARE of other bytes: x{}", t, hex(text.as_bytes())));
-                                }
+                            Parsed::Prepare { text } if text != CS_TEXTS[t] => {
+                                ctx.fail(format!("execution of text {} caused a PREPARE of other bytes: x{}", t, hex(text.as_bytes())));
                             }
-                            Parsed::Execute { id, params, .. } => exec.push(format!("EXEC {} v={} cl={}", show_id(id), vals_str(&params.values), params.consistency)),
+                            Parsed::Execute { id, params, .. } => exec.push(format!(
+                                "EXEC {} v={} cl={} sk={} pg={}",
+                                show_id(id),
+                                vals_str(&params.values),
+                                params.consistency,
+                                params.skip_metadata as u8,
+                                params.page_size.map(|x| x.to_string()).unwrap_or_else(|| "-".into())
+                            )),
                             _ => {}
                         }
                     }
-                    if let Ok(_) = &res {
-                        // the statement's own config reaches the wire whether it was a hit or a miss; exactly one EXECUTE
-                        let want = format!("EXEC {} v=x{} cl={}", show_id(&cs_id(CS_TEXTS[t], 0)), hex(&pk), cl as u16);
-                        let alt = format!("EXEC {} v=x{} cl={}", show_id(&cs_id(CS_TEXTS[t], 1)), hex(&pk), cl as u16);
-                        if exec.len() != 1 || (exec[0] != want && exec[0] != alt) {
-                            ctx.fail(format!("execute_unpaged(text {}, config {}) put {:?} on the wire, expected one `{}`", t, k, exec, want));
+                    if res.is_ok() {
+                        // the statement's OWN config reaches the wire whether it was a hit or a miss: consistency, page
+                        // size; skip_metadata = the session's use_cached_result_metadata (for a statement with columns)
+                        let sk = (u == 1 && t < 3) as u8;
+                        let want = |v: u8| format!("EXEC {} v=x{} cl={} sk={} pg={}", show_id(&cs_id(CS_TEXTS[t], v)), hex(&pk), cl as u16, sk, page);
+                        if exec.len() != 1 || (exec[0] != want(0) && exec[0] != want(1)) {
+                            ctx.fail(format!("execute_single_page(text {}, config {}) put {:?} on the wire, expected one `{}`", t, k, exec, want(0)));
                         }
                     }
                     let r = match &res {
                         Ok(_) => "ok".to_owned(),
                         Err(e) => exec_err(e),
                     };
-                    out.push(format!("{}~prep={}~{}~{}", op, show_prep(&prep), if exec.is_empty() { "-".to_owned() } else { exec.join("&") }, r));
+                    out.push(format!("{}~pa={}~{}~{}", op, pa_str(&per), if exec.is_empty() { "-".to_owned() } else { exec.join("&") }, r));
                 }
                 b'b' => {
                     let body = &op[1..];
@@ -415,23 +450,13 @@ fn run_cs(w: &[&str], ctx: &mut Ctx) -> String {
                     }
                     let res = cs.batch(&batch, values).await;
                     let frames: Vec<Req> = user_frames(&cluster).into_iter().skip(before).collect();
-                    let mut prep: BTreeMap<usize, usize> = BTreeMap::new();
-                    let mut bframes = Vec::new();
-                    for f in &frames {
-                        match &f.parsed {
-                            Parsed::Prepare { text } => match CS_TEXTS.iter().position(|x| x == text) {
-                                Some(tt) => {
-                                    *prep.entry(tt).or_default() += 1;
-                                    if !kinds.contains(&(b'q', tt)) {
-                                        ctx.fail(format!("the batch caused a PREPARE of text {} which is not an unprepared statement of it", tt));
-                                    }
-                                }
-                                None => ctx.fail(format!("a PREPARE carries a text the caller never passed: x{}", hex(text.as_bytes()))),
-                            },
-                            Parsed::Batch { .. } => bframes.push(f.parsed.clone()),
-                            _ => {}
+                    let (_, per) = show_pa(&frames, n, ctx);
+                    for t in per.keys() {
+                        if !kinds.contains(&(b'q', *t)) {
+                            ctx.fail(format!("the batch caused a PREPARE of text {} which is not an unprepared statement of it", t));
                         }
                     }
+                    let bframes: Vec<Parsed> = frames.iter().filter(|f| matches!(f.parsed, Parsed::Batch { .. })).map(|f| f.parsed.clone()).collect();
                     if res.is_ok() {
                         // the batch handed to the session: the caller's batch with every unprepared statement replaced by
                         // the statement prepared from exactly its text - same order, same values, same config
@@ -449,7 +474,7 @@ fn run_cs(w: &[&str], ctx: &mut Ctx) -> String {
                         Ok(_) => "ok".to_owned(),
                         Err(e) => exec_err(e),
                     };
-                    out.push(format!("{}~prep={}~{}~{}", op, show_prep(&prep), if bframes.is_empty() { "-".to_owned() } else { bframes.iter().map(show_batch).collect::<Vec<_>>().join("&") }, r));
+                    out.push(format!("{}~pa={}~{}~{}", op, pa_str(&per), if bframes.is_empty() { "-".to_owned() } else { bframes.iter().map(show_batch).collect::<Vec<_>>().join("&") }, r));
                 }
                 _ => return "bad-case".to_owned(),
             }
@@ -458,18 +483,14 @@ fn run_cs(w: &[&str], ctx: &mut Ctx) -> String {
     })
 }
 
-fn show_prep(p: &BTreeMap<usize, usize>) -> String {
-    if p.is_empty() {
-        return "-".to_owned();
-    }
-    p.iter().map(|(t, c)| format!("{}x{}", t, c)).collect::<Vec<_>>().join(",")
-}
-
 fn exec_err(e: &scylla::errors::ExecutionError) -> String {
     use scylla::errors::{ExecutionError, PrepareError};
     match e {
         ExecutionError::PrepareError(PrepareError::PreparedStatementIdsMismatch) => "err:prep:mismatch".to_owned(),
-        ExecutionError::PrepareError(PrepareError::AllAttemptsFailed { .. }) => "err:prep:allfailed".to_owned(),
+        ExecutionError::PrepareError(PrepareError::AllAttemptsFailed { first_attempt }) => match first_attempt {
+            scylla::errors::RequestAttemptError::DbError(d, _) => format!("err:prep:allfailed:{}", d.code(&scylla::frame::protocol_features::ProtocolFeatures::default())),
+            _ => "err:prep:allfailed:?".to_owned(),
+        },
         ExecutionError::PrepareError(_) => "err:prep:other".to_owned(),
         other => format!("err:{}", err_kind(other)),
     }
@@ -517,13 +538,14 @@ pub fn generate(rng: &mut Rng, tier: Tier, emit: &mut dyn FnMut(String)) {
         emit(format!("pb {} {} {}", cfg, fail, items.join(",")));
     }
     // cs: CachingSession / Session::prepare against the mock cluster
-    for _ in 0..if quick { 40 } else { 400 } {
+    for i in 0..if quick { 80 } else { 600 } {
         let n = 1 + rng.below(3) as usize;
         let cap = 1 + rng.below(3);
+        let sh = if i % 4 == 3 { *rng.pick(&[2u64, 3]) } else { 0 };
         let len = 4 + rng.below(10);
         let mut ops = Vec::new();
         for _ in 0..len {
-            ops.push(match rng.below(12) {
+            ops.push(match rng.below(14) {
                 0..=4 => format!("x{}c{}", rng.below(5), rng.below(3)),
                 5..=8 => {
                     let k = 1 + rng.below(4);
@@ -532,9 +554,28 @@ pub fn generate(rng: &mut Rng, tier: Tier, emit: &mut dyn FnMut(String)) {
                 }
                 9 => format!("M{}t{}", rng.below(n as u64), rng.below(5)),
                 10 => format!("N{}t{}", rng.below(n as u64), rng.below(5)),
-                _ => format!("{}{}", if rng.bool() { 'F' } else { 'G' }, rng.below(5)),
+                11 | 12 => format!("F{}t{}", rng.below(n as u64), rng.below(5)),
+                _ => format!("G{}t{}", rng.below(n as u64), rng.below(5)),
             });
         }
-        emit(format!("cs n={} cap={} u={} ops={}", n, cap, rng.below(2), ops.join(".")));
+        emit(format!("cs n={} cap={} u={} sh={} ops={}", n, cap, rng.below(2), sh, ops.join(".")));
+    }
+    // prepare-on-all, directed: for every node subset refusing / answering another id (3 nodes), one preparation
+    for mask in 0..27u32 {
+        // per node: 0 = fine, 1 = refuses, 2 = other id
+        let mut ops: Vec<String> = Vec::new();
+        let mut m = mask;
+        for node in 0..3 {
+            match m % 3 {
+                1 => ops.push(format!("F{}t0", node)),
+                2 => ops.push(format!("M{}t0", node)),
+                _ => {}
+            }
+            m /= 3;
+        }
+        ops.push("x0c1".to_owned());
+        ops.push("x0c0".to_owned());
+        ops.push("bq0q1".to_owned());
+        emit(format!("cs n=3 cap=2 u=1 sh={} ops={}", if mask % 2 == 0 { 0 } else { 2 }, ops.join(".")));
     }
 }
